@@ -502,3 +502,50 @@ func c8labelProgram(r *rand.Rand) string {
 	}
 	return b.String()
 }
+
+// c8profiles: option sets other than the default; the same oracle applies (same tree, fixpoint under the same options).
+var c8profiles = []struct {
+	name string
+	opts []format.Option
+}{
+	{"spaces", []format.Option{format.TabIndent(false)}},
+	{"spaces2", []format.Option{format.TabIndent(false), format.UseSpaces(2)}},
+	{"usespaces8", []format.Option{format.UseSpaces(8)}},
+	{"spaces3-simplify", []format.Option{format.TabIndent(false), format.UseSpaces(3), format.Simplify()}},
+}
+
+func c8checkProfile(src []byte, k int) (res *c8result) {
+	pr := c8profiles[k%len(c8profiles)]
+	simp := strings.Contains(pr.name, "simplify")
+	defer func() {
+		if rec := recover(); rec != nil {
+			res = &c8result{"opt:" + pr.name + ":panic", fmt.Sprint(rec)}
+		}
+	}()
+	out, err := format.Source(src, pr.opts...)
+	if err != nil {
+		return &c8result{"opt:" + pr.name + ":format-error", err.Error()}
+	}
+	a, err := c8canon(src, simp)
+	if err != nil {
+		return nil
+	}
+	b, err := c8canon(out, simp)
+	if err != nil {
+		return &c8result{"opt:" + pr.name + ":output-does-not-parse", err.Error() + "\n--- output\n" + string(out)}
+	}
+	if a != b {
+		return &c8result{"opt:" + pr.name + ":" + c8treeClass(a, b), c8firstDiffLine(a, b) + "\n--- output\n" + string(out)}
+	}
+	out2, err := format.Source(out, pr.opts...)
+	if err != nil {
+		return &c8result{"opt:" + pr.name + ":second-pass-error", err.Error()}
+	}
+	if !bytes.Equal(out, out2) {
+		if simp && c8diff(c8stream(out), c8stream(out2)) == "" && c8braceEllipsisLine.Match(out) && !c8braceEllipsisLine.Match(out2) {
+			return &c8result{"s:not-idempotent:layout-of-ellipsis-after-closing-brace", "second pass differs\n--- first\n" + string(out) + "\n--- second\n" + string(out2)}
+		}
+		return &c8result{"opt:" + pr.name + ":not-idempotent", "second pass differs\n--- first\n" + string(out) + "\n--- second\n" + string(out2)}
+	}
+	return nil
+}
